@@ -184,6 +184,8 @@ pub struct AssertSite {
     pub scope: usize,
     pub file: String,
     pub stmt: usize,
+    /// index of the segment the assertion stands in
+    pub seg: Option<usize>,
 }
 
 #[derive(Default)]
@@ -807,7 +809,7 @@ impl<'a> Walker<'a> {
                     if let Some(pc) = self.target_pc() {
                         let (file, stmt) = self.stmt_id(s);
                         let expr = self.close_vars(e, scope)?;
-                        self.asserts.push(AssertSite { pc, expr, msg: msg.clone(), scope, file, stmt });
+                        self.asserts.push(AssertSite { pc, expr, msg: msg.clone(), scope, file, stmt, seg: self.cur_seg });
                     }
                 }
             }
